@@ -40,6 +40,8 @@ func init() {
 			ruleXZReaderBounds(c, r)
 			t := getChunkTables(c, r, "")
 			ruleControlByte(c, r, t, "", true)
+			// new properties in a chunk header => a state sized for them (else litState indexes past the literal tables)
+			ruleStartChunkEffects(c, r, t, "")
 			ruleDictCapDecode(c, r, "")
 			rulePropsCode(c, r, "")
 			// a failed chunk start must be latched: the next Read would dereference a nil chunk reader
